@@ -65,7 +65,7 @@ def rule_effect(ctx):
             effs = [e for e in o["effects"] if not (e[0] == "call" and (e[1].endswith("deref_mut")))]
             r = o["ret"]
             rv = r[1] if r[0] in ("ok", "other") else None
-            returns_self = rv == ("arg", 1) or r[0] == "propagate"
+            returns_self = rv == ("arg", 1) or r[0] == "propagate" or (r[0] == "err" and r[1][0] == "err" and r[1][1][0] == "call")
             if want[0] == "store":
                 good = len(effs) == 1 and effs[0][0] == "store" and models.field_path(effs[0][1]) == want[1]
                 if good:
@@ -75,7 +75,8 @@ def rule_effect(ctx):
                     elif want[2] == "arg":
                         good = v == ("arg", 2)
                     else:
-                        good = v[0] == "call" and v[1].endswith("Default>::default") and not v[2]
+                        # Default::default() of the small string, or the conversion of the empty literal: the empty string
+                        good = (v[0] == "call" and v[1].endswith("Default>::default") and not v[2]) or (v[0] == "conv" and v[1] == ("const", "")) or v == ("const", "")
                 det.append("store %s <- %s" % (models.field_path(effs[0][1]) if effs and effs[0][0] == "store" else "?", nshow(effs[0][2])[:60] if effs and effs[0][0] == "store" else [e[1] for e in effs]))
             else:
                 good = len(effs) == 1 and effs[0][0] == "call" and effs[0][2] == ("arg", 1, want[1]) and effs[0][1].split("::")[-1] in want[2] and effs[0][1].startswith("qualifiers::Qualifiers::")
